@@ -211,6 +211,36 @@ def check(an: Analysis) -> None:
                 ob.findings.append(fnd)
 
 
+    # ------------------------------------------------------------------ C07.10 a cancellation absorbed by the task group is not silenced with the group's errors
+    ob = an.ob(
+        "C07.10",
+        "K10+K4",
+        "API_FACT 12: asyncio.TaskGroup.__aexit__ (3.12) raises BaseExceptionGroup - not CancelledError - when the parent is cancelled while it waits and a member then fails during the abort. "
+        "The handler in TaskGroupContext.__aexit__ that silences group errors therefore has to look at the pending cancellation (Task.cancelling()) before swallowing",
+        ["context.tasks.TaskGroupContext.__aexit__"],
+    )
+    tg = an.prog.fn("context.tasks.TaskGroupContext.__aexit__")
+    gtg = an.cfg(tg)
+    gx_aw = [n for n in gtg.nodes if n.kind == "await" and isinstance(n.ast.value, ast.Call) and an.callee(tg, n.ast.value) == c06.GROUP_EXIT]  # type: ignore[union-attr]
+    if not gx_aw:
+        raise AnalysisError("C07.10: the await of asyncio.TaskGroup.__aexit__ was not found in TaskGroupContext.__aexit__")
+    ob.inst(tg, gx_aw[0].ast)
+    from ..kinds import classify_handler_for
+    from ..loader import within
+
+    for h in [h for h in tg.own_nodes() if isinstance(h, ast.ExceptHandler)]:
+        tr = parent(h)
+        if not (isinstance(tr, ast.Try) and any(within(gx_aw[0].ast, st) for st in tr.body)):
+            continue
+        kinds = classify_handler_for(gtg, h, "BaseExceptionGroup")
+        if not any(k[0] in ("swallow", "return", "continue") for k in kinds):
+            continue
+        ob.inst(tg, h)
+        looks = any(isinstance(x, ast.Call) and isinstance(x.func, ast.Attribute) and x.func.attr == "cancelling" for x in ast.walk(h)) or any(isinstance(x, ast.Call) and isinstance(x.func, ast.Attribute) and x.func.attr == "cancelling" for x in tg.own_nodes() if not within(x, h) and gtg.search([n for n in gtg.nodes if n.kind == "handler" and n.ast is h], lambda n, x=x: n.ast is x) is not None)
+        if not looks:
+            ob.fail(tg, h, "group errors are silenced without checking for a cancellation that the task group absorbed: the task carries on (Task.cancelling() stays > 0) instead of ending cancelled", construct="<silencer of task-group errors> without Task.cancelling()")
+
+
 def _borrowed(an: Analysis) -> None:
     from ..engine import borrow
     from . import c02
